@@ -12,7 +12,40 @@ EXPL = ("R01.1 each appended entry is moved (drop-flag aware linearity) into exa
         "(ArrayQueue semantics, scheduler).")
 
 BG = "metrique_writer"
-BGMOD = "metrique_writer::sink::background::"
+BGMOD = "metrique_writer::sink::background::"      # today's home of the queue; in_bg() decides by role, so a split into sibling modules is fine
+
+
+def bg_modules(F):
+    """modules of metrique_writer that make up the background queue: those defining a type that holds the ring (ArrayQueue), a handle to
+    such a type, or the flush-signal bookkeeping (a Vec of values owning a oneshot sender)"""
+    c_ = getattr(F, "_bg_modules", None)
+    if c_ is not None:
+        return c_
+    adts = [a for a in F.adts.values() if a["crate"] == BG]
+    fam = set()
+    sig = {a["def"] for a in adts if any("tokio::sync::oneshot::Sender" in f["ty"] for v in a["variants"] for f in v["fields"])}
+    for a in adts:
+        tys = [f["ty"] for v in a["variants"] for f in v["fields"]]
+        if any("crossbeam_queue::array_queue::ArrayQueue" in t or "ArrayQueue<" in t for t in tys) or a["def"] in sig or \
+                any(t.startswith("alloc::vec::Vec<") and any(s_ in t for s_ in sig) for t in tys):
+            fam.add(a["def"])
+    grew = True
+    while grew:
+        grew = False
+        for a in adts:
+            if a["def"] in fam:
+                continue
+            if any(any(f_ in f["ty"] for f_ in fam) for v in a["variants"] for f in v["fields"]):
+                fam.add(a["def"])
+                grew = True
+    mods = {d.rsplit("::", 1)[0] + "::" for d in fam}
+    F._bg_modules = mods
+    return mods
+
+
+def in_bg(F, b):
+    p_ = b.path[1:] if b.path.startswith("<") else b.path
+    return b.crate == BG and any(p_.startswith(m) for m in bg_modules(F))
 
 
 def is_pop(cs):
@@ -64,7 +97,7 @@ def run(ctx):
     # ---------------------------------------------------------------- R01.1 / R09.2 producer side
     appends = []
     for b in F.all_bodies(BG):
-        if b.name == "append" and b.impl and (b.impl.get("trait") or "").endswith("::EntrySink") and b.path.startswith("<" + BGMOD):
+        if b.name == "append" and b.impl and (b.impl.get("trait") or "").endswith("::EntrySink") and (b.path.startswith("<") and in_bg(F, b)):
             appends.append(b)
     ctx.floor("R01.1", "EntrySink::append impls of the background queue", len(appends), 1)
     ins_all = []
@@ -74,7 +107,7 @@ def run(ctx):
         ctx.check(bool(ins), "R01.1", fnkey(b) + "#reaches-ring-insertion", loc(b),
                   "the appended entry does not reach a ring insertion", "insertion: %s" % sorted({c.name for _, c, _ in ins}))
     # ---------------------------------------------------------------- R01.2 consumer side
-    drains = [b for b in F.all_bodies(BG) if b.path.startswith(BGMOD) and any(is_pop(c) for c in b.calls())]
+    drains = [b for b in F.all_bodies(BG) if in_bg(F, b) and any(is_pop(c) for c in b.calls())]
     ctx.floor("R01.2", "bodies popping from the ring", len(drains), 1)
     consumers = []
     for d in drains:
@@ -179,7 +212,7 @@ def run(ctx):
     # report_error sites in the module: guarded by the NoSubscriber test
     nrep = 0
     for b in F.all_bodies(BG):
-        if not b.path.startswith(BGMOD):
+        if not in_bg(F, b):
             continue
         for c in b.calls():
             if c.name == "report_error" and c.is_trait_method("EntryIoStreamExt"):
@@ -204,7 +237,7 @@ def run(ctx):
     ctx.floor("R01.4", "in-band report_error sites", nrep, 1)
     # who may call next/flush in the module
     for b in F.all_bodies(BG):
-        if not b.path.startswith(BGMOD):
+        if not in_bg(F, b):
             continue
         for c in b.calls():
             if is_next(c):
@@ -215,7 +248,7 @@ def run(ctx):
                 ctx.check("Receiver" in st or any(sb is b for sb in cons_bodies) or _same_impl(b, cons_bodies), "R01.4", fnkey(b) + "#flush-only-in-receiver", loc(b, c.bb),
                           "EntryIoStream::flush on the queue's stream is called outside the receiver")
     # one spawn; receiver type not Clone
-    spawns = [c for b in F.all_bodies(BG) if b.path.startswith(BGMOD) for c in b.calls() if c.is_in("std::thread", "spawn", "spawn_scoped")]
+    spawns = [c for b in F.all_bodies(BG) if in_bg(F, b) for c in b.calls() if c.is_in("std::thread", "spawn", "spawn_scoped")]
     ctx.check(len(spawns) == 1, "R01.4", BGMOD + "#single-writer-thread", "", "expected exactly one thread spawn in the background module, found %d" % len(spawns))
     for sb in cons_bodies:
         adt = ((sb.impl or {}).get("self_head") or {}).get("adt")
